@@ -2,7 +2,7 @@
    Statements only; model coq/SliceJob.v (see C16.v for the conventions). Queue close is a pure
    property of the queue models (Fifo.v / Heap.v: a closed queue rejects with no effect). *)
 From Coq Require Import List Arith.
-From VQ Require Import SliceJob SliceJobProofs Fifo FifoProofs Heap HeapProofs.
+From VQ Require Import SliceJob SliceJobProofs SliceBatch SliceBatchProofs Fifo FifoProofs Heap HeapProofs.
 Import ListNotations.
 
 (* If a Close call returns nil while the job has not started, the job is cancelled ... *)
@@ -52,6 +52,22 @@ Theorem C10_closed_prio_rejects :
   forall (A : Type) (q : pq A) (p : BinNums.Z) (v : A), pclosed q = true -> push q p v = (false, q).
 Proof. exact @pclosed_rejects. Qed.
 Print Assumptions C10_closed_prio_rejects.
+
+(* "Never crash", for the items of a batch that are cancelled or purged while others finish
+   (coq/SliceBatch.v): whoever brings the batch counter to zero — a finisher, a canceller or the
+   purger — is the only one to close the stream, it is closed at most once and never sent to
+   afterwards, and the wait group never goes negative. *)
+Theorem C10_batch_stream_closed_at_most_once : forall s, BReachable s -> bcloses s <= 1.
+Proof. exact closed_at_most_once. Qed.
+Print Assumptions C10_batch_stream_closed_at_most_once.
+
+Theorem C10_batch_no_send_after_close : forall s, BReachable s -> bdones s < bn s -> bclosed s = false.
+Proof. exact send_never_on_closed. Qed.
+Print Assumptions C10_batch_no_send_after_close.
+
+Theorem C10_batch_waitgroup_never_negative : forall s, BReachable s -> owe_wg s >= 1 -> bwg s >= 1.
+Proof. exact wg_never_negative. Qed.
+Print Assumptions C10_batch_waitgroup_never_negative.
 
 (* non-vacuity: Close wins against the dispatcher, which then skips the job (cancel family) *)
 Example C10_example :
